@@ -53,6 +53,8 @@ pub struct Report {
     floors: Mutex<Vec<(String, u64, u64)>>,
     notes: Mutex<Vec<String>>,
     pub print_findings: bool,
+    /// replay mode: (signature to look for, witness file)
+    pub replay: Option<(String, String)>,
 }
 
 impl Report {
@@ -71,6 +73,7 @@ impl Report {
             floors: Mutex::new(Vec::new()),
             notes: Mutex::new(Vec::new()),
             print_findings: false,
+            replay: None,
         }
     }
     pub fn thorough(&self) -> bool {
@@ -220,6 +223,22 @@ impl Report {
 
     /// Write evidence + replays, print verdict lines, return the process exit code.
     pub fn finish(&self, rule: &str, exhaustive: bool, assumptions: &[&str]) -> i32 {
+        if let Some((sig, path)) = &self.replay {
+            let buckets = self.buckets.lock().unwrap();
+            return match buckets.get(sig) {
+                Some(b) => {
+                    println!("VIOLATION property={} replay={} sig={} :: reproduced ({} occurrences): {}", self.prop, path, sig, b.count, b.what);
+                    for w in b.witnesses.iter().take(1) {
+                        println!("witness: {}", w);
+                    }
+                    1
+                }
+                None => {
+                    println!("[{}] replay of {}: signature {} did not occur again at tier={} seed={} ({} evaluations, {} other signatures failing)", self.prop, path, sig, self.tier, self.seed, self.evals(), buckets.len());
+                    0
+                }
+            };
+        }
         let known = load_known();
         let root = verif_root();
         let buckets = self.buckets.lock().unwrap();
